@@ -5,7 +5,8 @@ import pipeline
 PID = 'C09'
 PROOF_MODULES = ['ChamProofs.Props.C09']
 THEOREMS = ['ChamVerif.C09_slot_default', 'ChamVerif.C09_slot_filled', 'ChamVerif.C09_locals_private', 'ChamVerif.C09_globals_reach_caller',
-            'ChamVerif.C09_resolve_pops_rightmost', 'ChamVerif.C09_updateOwn_get']
+            'ChamVerif.C09_resolve_pops_rightmost', 'ChamVerif.C09_updateOwn_get', 'ChamVerif.C09_macro_enter',
+            'ChamVerif.C09_macro_names_resolve_in_its_template']
 LEVEL_TEXT = ('Proved in Lean on the interpreter model: a define-slot region whose slot variable is empty renders exactly its default content '
               '(C09_slot_default) and one whose variable holds a filler renders exactly that filler, in a copy of the macro\'s scope and with '
               'the i18n settings and cached values of the place where the filler was written (C09_slot_filled); after a macro call the caller\'s '
@@ -15,7 +16,9 @@ LEVEL_TEXT = ('Proved in Lean on the interpreter model: a define-slot region who
               '(C09_resolve_pops_rightmost). "Use equals inline" for whole libraries (nested uses, repeated slot names, extend chains, uses '
               'inside repeat/define/fill-slot, other templates, whole templates as macros) is judged on the implementation by rendering '
               'each generated (library, caller) pair and its hand-inlined METAL-free equivalent; the interpreter model is tied to the '
-              'code by correspondence on the same-template pairs.')
+              'code by correspondence on the same-template pairs, on (library template, caller) pairs and on whole templates used as macros; a '
+              'macro of another template runs with the template id of its own template (C09_macro_enter), so that `macros` and `template` inside '
+              'it denote the library, not the caller (C09_macro_names_resolve_in_its_template).')
 LEVEL_NOTE = ('Trusted: Lean kernel; the interpreter model; the harness\'s inliner (independent of Chameleon). Macros of other templates '
               '(lib.macros[...]) and whole templates used as macros are in the model since round 6 (library templates are compiled by the '
               'same builder; a macro runs with the macros of the template it was written in: Frame.tid); `load:` is not. Known findings: D-09a (an unused filler is picked up by a '
@@ -432,6 +435,49 @@ def oracle(ctx):
         if a != b:
             ctx.violation('a whole template used as a macro does not render like the inlined template', {'page': wsrc, 'caller': csrc, 'inlined': isrc},
                           expected=b, actual=a)
+    # a macro library that changes between uses: the macro that is used is the one the library defines *now*, whichever way the
+    # library noticed the change (its own render(), a whole-template use, `macros.names`, write(), or the macro lookup itself)
+    import os as _os
+    import shutil as _sh
+    import tempfile as _tf
+    from chameleon import PageTemplateFile
+    d = _tf.mkdtemp(prefix='c09_')
+    try:
+        for how in ('lookup', 'render', 'whole', 'names', 'write'):
+            for order in ('lookup-first', 'fresh'):
+                v = lambda k: '<html><b metal:define-macro="box">V%d[<i metal:define-slot="s">d%d</i>]</b> page%d</html>' % (k, k, k)
+                caller = PageTemplate('<x metal:use-macro="lib.macros[\'box\']"><u metal:fill-slot="s">F</u></x>|<y metal:use-macro="lib.macros[\'box\']"/>')
+                whole = PageTemplate('<z metal:use-macro="lib"/>')
+                if how == 'write':
+                    lib = PageTemplate(v(1))
+                else:
+                    p = _os.path.join(d, 'lib_%s_%s.pt' % (how, order))
+                    open(p, 'w').write(v(1))
+                    _os.utime(p, (1000, 1000))
+                    lib = PageTemplateFile(p, auto_reload=True)
+                outs = []
+                if order == 'lookup-first':
+                    outs.append(caller(lib=lib))
+                if how == 'write':
+                    lib.write(v(2))
+                else:
+                    open(p, 'w').write(v(2))
+                    _os.utime(p, (2000, 2000))
+                    if how == 'render':
+                        lib()
+                    elif how == 'whole':
+                        whole(lib=lib)
+                    elif how == 'names':
+                        lib.macros.names
+                outs.append(caller(lib=lib))
+                ctx.count('evaluations', len(outs))
+                nt += 1
+                want = (['<b>V1[<u>F</u>]</b>|<b>V1[<i>d1</i>]</b>'] if order == 'lookup-first' else []) + ['<b>V2[<u>F</u>]</b>|<b>V2[<i>d2</i>]</b>']
+                if outs != want:
+                    ctx.violation('using a macro of a library that changed renders an earlier version of the macro',
+                                  {'library_change_noticed_by': how, 'order': order}, expected=want, actual=outs)
+    finally:
+        _sh.rmtree(d, ignore_errors=True)
     ctx.cov['use_histogram'] = hist
     ctx.counters['nontrivial'] = nt
     ctx.sample({'metal': meta[0][0], 'inlined': meta[0][1]})
